@@ -54,7 +54,7 @@ Print Assumptions C14_example.
    of them re-opens this property even if no sampled case shows a difference.  Rewritten by tools/pin_shapes.py on a tree on which every check passes. *)
 From Connectome Require GlueMergeGen.
 Theorem C14_mirrored_functions_are_the_pinned_ones :
-  GlueMergeGen.shape_class_Merge = "249844d0ee74d228".
+  GlueMergeGen.shape_class_Merge = "249844d0ee74d228"%string.
 Proof. repeat split; reflexivity. Qed.
 Print Assumptions C14_mirrored_functions_are_the_pinned_ones.
 (* END PINNED FINGERPRINTS *)
